@@ -1,4 +1,5 @@
-"""Per-property configuration for ./check."""
+"""Per-property configuration for ./check: loads checks/props/Cxx.py (each defines CFG)."""
+import importlib.util, os
 
 TRUSTED_BASE = [
     "Lean 4.33.0 kernel (thorough tier re-checks with leanchecker)",
@@ -8,19 +9,16 @@ TRUSTED_BASE = [
     "correspondence harness canonicalisation (error classes, sorted keys) does not hide property-relevant differences",
 ]
 
+# commits in /repo that add hooks guarded by --cfg jrsonnet_verif
 HOOK_COMMITS = []
+# properties not claimed, with the reason
 NOT_APPLICABLE = {}
 
-PROPS = {
-    "C08": {
-        "level": "proof",
-        "level_text": "Lean theorems (build_good/len_eq/get_eq/get_total/repr_irrelevant/materialize_eq) prove, for every array expression over literals, ranges, slices with any start/end/step, concatenation, reverse, repeat, map and filter and every index, that the modelled view code returns exactly the element of the plainly constructed list or out-of-bounds and never panics. The model is tied to the code by re-extracting the concat threshold and by a differential run of ArrValue's constructors/len/get and of evaluated source against both the model and the list semantics.",
-        "level_note": "Trusted: Lean kernel; the hand model of arr/spec.rs + arr/mod.rs (validated only by correspondence: systematic depth<=2 enumeration + seeded random terms); lengths < 2^32; element thunks not modelled.",
-        "technique": "Lean 4 proof by induction over array expressions (refinement to lists) + differential correspondence",
-        "engines": ["c08"],
-        "assumptions": [
-            "array lengths stay below 2^32 (u32 casts in SliceArray) and below usize::MAX (checked_mul in RepeatedArray)",
-            "element evaluation itself (thunks) is outside this model: elements are numbers",
-        ],
-    },
-}
+PROPS = {}
+_d = os.path.join(os.path.dirname(os.path.abspath(__file__)), "props")
+for _f in sorted(os.listdir(_d)):
+    if _f.endswith(".py") and _f[0] == "C":
+        _spec = importlib.util.spec_from_file_location("props_" + _f[:-3], os.path.join(_d, _f))
+        _m = importlib.util.module_from_spec(_spec)
+        _spec.loader.exec_module(_m)
+        PROPS[_f[:-3]] = _m.CFG
